@@ -26,6 +26,23 @@ HELPER_TYPES = {
 }
 
 
+def ok_wraps(v, local):
+    """Every `Ok(..)` the function returns wraps exactly the given local (the hoisted-Ok form of a conversion table)."""
+    oks = [e for b, e in prims.ret_variants(v) if e[0] == 'agg' and e[2] == 'Ok']
+    if not oks:
+        return False
+    for e in oks:
+        inner = dict(e[3]).get('0')
+        if inner is None:
+            return False
+        if inner[0] == 'phi' and inner[1] == local:
+            continue
+        if inner[0] == 'var' and v.varnames.get(local) == inner[1] and not inner[2]:
+            continue
+        return False
+    return True
+
+
 def try_from_table(F, v):
     tabs = codec.switch_table(v, r'^\w+$')
     if not tabs:
@@ -44,6 +61,12 @@ def try_from_table(F, v):
                         inner = dict(e[3]).get('0')
                         if inner and inner[0] == 'agg':
                             found = (inner[1], inner[2])
+                elif s['k'] == 'assign' and not s['lhs']['p'] and s['lhs']['l'] != 0 and found is None:
+                    # `let rc = match v { 0 => Enum::A, .. }; Ok(rc)`: the arm stores the bare variant; accepted when the function's
+                    # only Ok value is that local (checked below by ok_wraps)
+                    e = v.rvalue_expr(s['rv'], cur)
+                    if e[0] == 'agg' and not e[3] and e[2] not in ('Ok', 'Err', 'Some', 'None') and ok_wraps(v, s['lhs']['l']):
+                        found = (e[1], e[2])
             if found:
                 break
             t = v.blocks[cur]['term']
@@ -252,12 +275,32 @@ def run(ctx):
     ctx.ob(len(dbs) == 1 and show(dbs[0].arg(1)) == 'data' and show(dbs[0].arg(2)) == 'decode_context', 'the received bytes and that context are what the decoder is given', 'limit|decode-call', loc=hid.loc())
     plr = ctx.fn('Decoder::process_read_total_remaining_length')
     from ..mir import var_inits as _vi
-    mi = [(show(e), guard_strs(plr, b)) for b, e in _vi(plr, 'maximum_size')]
-    ok = len(mi) == 2 and any(x == 'context.maximum_packet_size' for x, g in mi) and any(x == 'MAXIMUM_VARIABLE_LENGTH_INTEGER as u32' and any(re.match(r'^\(maximum_size == 0\)$', y) for y in g) for x, g in mi)
-    ctx.ob(ok, 'the comparison uses the context\'s limit (0 meaning the specification maximum)', 'limit|compare-source', loc=plr.loc())
-    ti = [show(e) for b, e in _vi(plr, 'total_packet_size')]
-    ctx.ob(len(ti) == 1 and re.match(r'^\(\(\(\(\(decode::decode_vli\(Deref::deref\(self\.scratch\)\)\)@Ok\.0@Value\.0 AddWithOverflow 1\)\)\.0 AddWithOverflow Vec::len\(self\.scratch\) as u32\)\)\.0$', ti[0]) is not None,
-           'the size compared is the whole packet: remaining length + first byte + length-field bytes', 'limit|total', loc=plr.loc())
+    from ..mir import sum_terms
+    # the comparison that protects the body-state transition, whatever its shape: (TOTAL <= LIMIT)
+    body_w = [i_ for (i_, s_, pe, rve) in plr.field_writes() if show(pe) == 'self.state' and show(rve) == 'DecoderState::ReadPacketBody{}']
+    cmps = []
+    for i_ in body_w:
+        for a_ in plr.guards(i_):
+            if a_[0] == 'truth' and a_[2] and a_[1][0] == 'cmp' and a_[1][1] == 'Le':
+                cmps.append(a_[1])
+    ctx.ob(len(body_w) == 1 and len(cmps) == 1, 'the body state is entered under exactly one size comparison', 'limit|compare-site', loc=plr.loc())
+    if len(cmps) == 1:
+        tot, lim = cmps[0][2], cmps[0][3]
+        def values(e):
+            if e[0] == 'var' and not e[2]:
+                vs = [(show(x), guard_strs(plr, b)) for b, x in _vi(plr, e[1])]
+                return vs or [(show(e), [])]
+            if e[0] == 'phi':
+                return [(show(x), guard_strs(plr, b)) for b, x in plr.phi_defs(e[1])]
+            return [(show(e), [])]
+        lv = values(lim)
+        ok = sorted(x for x, g in lv) == ['MAXIMUM_VARIABLE_LENGTH_INTEGER as u32', 'context.maximum_packet_size'] and \
+            any(x == 'MAXIMUM_VARIABLE_LENGTH_INTEGER as u32' and any(re.match(r'^\((maximum_size|context\.maximum_packet_size) == 0\)$', y) for y in g) for x, g in lv)
+        ctx.ob(ok, 'the comparison uses the context\'s limit (0 meaning the specification maximum) (%s)' % [x for x, g in lv], 'limit|compare-source', loc=plr.loc())
+        tv = values(tot)
+        terms = [sum_terms(e_) for b_, e_ in (_vi(plr, tot[1]) if tot[0] == 'var' and not tot[2] else [(0, tot)])]
+        want_t = sorted(['(decode::decode_vli(Deref::deref(self.scratch)))@Ok.0@Value.0', '1', 'Vec::len(self.scratch) as u32'])
+        ctx.ob(terms == [want_t], 'the size compared is the whole packet: remaining length + first byte + length-field bytes (%s)' % terms, 'limit|total', loc=plr.loc())
 
     # ------------------------------------------------------------ R-C03-6
     ctx.rule('R-C03-6', 'T9 value flow', 'stream consumption arithmetic: each state function consumes exactly what it buffers/decodes and hands the untouched remainder back, so the decoded packets depend only on the concatenated stream (necessary for chunking invariance)')
